@@ -11,6 +11,7 @@ from pandapipes.timeseries import run_timeseries
 from pandapipes.pf.pipeflow_setup import PipeflowNotConverged
 from pandapower.timeseries import DFData, OutputWriter
 from pandapower.control import ConstControl
+from pandapower.control.run_control import NetCalculationNotConverged
 
 ID = "C13"
 CASE_WEIGHT = 3   # relative cost of one case (pool sizing)
@@ -20,7 +21,8 @@ RULE = ("state = (net object, position in the step list); per net (gas tree, wat
         "step lists {all steps forward, reversed, single step, subsets, rotated} x continue_on_divergence {False, True} x "
         "(water mesh, additionally) ALL vectors over {mid, branch A switched off, branch B switched off} x solver option "
         "only_update_hydraulic_matrix {absent, True} x "
-        "1-2 ConstControl objects; every logged step is compared with a stand-alone pipeflow on a freshly built net carrying "
+        "1-2 ConstControl objects; the gas tree additionally as member of a multinet (power member fed by a gas-led G2P unit, "
+        "both member orders, run_timeseries of the multinet module); every logged step is compared with a stand-alone pipeflow on a freshly built net carrying "
         "that step's values. transitions = time steps executed by run_timeseries.")
 ASSUMPTIONS = ["pandapower's ConstControl / OutputWriter / run_time_step loop are trusted; pandapipes' registration of pipeflow "
                "as run function and of PipeflowNotConverged as recognised error is under test",
@@ -80,6 +82,14 @@ def cases(tier):
                     if tier == "quick" and si >= 3 and not any(l in ("infeasible", "off") for l in vec):
                         continue
                     out.append({"net": kind, "profile": list(vec), "steps": steps, "cod": cod, "two_controllers": (si % 2 == 1)})
+    # multi-energy time series: the gas tree as member of a multinet (both member orders), profile incl. failing steps
+    for vec in itertools.product(["mid", "high", "infeasible", "off"], repeat=n):
+        for si, steps in enumerate(step_lists(n, tier)):
+            for cod in (False, True):
+                if tier == "quick" and (si >= 3 or (si > 0 and not any(l in ("infeasible", "off") for l in vec))):
+                    continue
+                out.append({"net": "gas", "multi": True, "order": ["power", "gas"] if si % 2 == 0 else ["gas", "power"], "profile": list(vec),
+                            "steps": steps, "cod": cod, "two_controllers": (si % 2 == 1)})
     # topology changes between the steps, with and without the matrix-update option of the solver
     for vec in itertools.product(TOPO_LETTERS, repeat=n):
         if not any(l != "mid" for l in vec):
@@ -112,8 +122,23 @@ def pipes_state(letter):
     return v[2] if len(v) > 2 else (True, True)
 
 
+HHV_LGAS = None
+
+
+def power_member():
+    import pandapower as ppw
+    net = ppw.create_empty_network()
+    b = ppw.create_buses(net, 2, 20.0)
+    ppw.create_ext_grid(net, b[0])
+    ppw.create_line(net, b[0], b[1], 1.0, "NAYY 4x50 SE")
+    ppw.create_load(net, b[1], 0.2)
+    ppw.create_sgen(net, b[1], 0.0)
+    return net
+
+
 def run_case(case):
-    kind = case["net"]
+    multi = case.get("multi", False)
+    kind = "gas" if multi else case["net"]
     opts = case.get("opts") or {}
     net, base = make_net(kind)
     prof = case["profile"]
@@ -136,22 +161,36 @@ def run_case(case):
     ow = OutputWriter(net, case["steps"], output_path=None, log_variables=logvars)
     steps = case["steps"]
     vs = []
-    tag = {"net": kind, "cod": case["cod"]}
+    tag = {"net": "multinet" if multi else kind, "cod": case["cod"]}
+    if multi:
+        # the gas net is one member of a multinet, a gas-led G2P unit feeds the power member from the first sink
+        from pandapipes.multinet.create_multinet import create_empty_multinet, add_net_to_multinet
+        from pandapipes.multinet.control.controller.multinet_control import G2PControlMultiEnergy
+        from pandapipes.multinet.timeseries.run_time_series_multinet import run_timeseries as run_timeseries_mn
+        pw = power_member()
+        mn = create_empty_multinet("m")
+        for name in case["order"]:
+            add_net_to_multinet(mn, pw if name == "power" else net, name)
+        G2PControlMultiEnergy(mn, 0, net.sink.index[0], efficiency=0.6, element_type_power="sgen")
+        ow_p = OutputWriter(pw, case["steps"], output_path=None, log_variables=[("res_sgen", "p_mw"), ("res_bus", "vm_pu")])
     if opts:
         tag["opts"] = ",".join(sorted(opts))
     where = "net=%s profile=%s steps=%s continue_on_divergence=%s%s" % (kind, prof, steps, case["cod"], (" options=%s" % opts) if opts else "")
     refs = {t: standalone(kind, base, prof[t], second[t], opts) for t in set(steps)}
     first_fail = next((i for i, t in enumerate(steps) if not refs[t][0]), None)
     try:
-        run_timeseries(net, time_steps=steps, continue_on_divergence=case["cod"], verbose=False, use_numba=False, **opts)
+        if multi:
+            run_timeseries_mn(mn, time_steps=steps, continue_on_divergence=case["cod"], verbose=False)
+        else:
+            run_timeseries(net, time_steps=steps, continue_on_divergence=case["cod"], verbose=False, use_numba=False, **opts)
         raised = None
     except Exception as e:
         raised = e
-    states = [core.jhash([kind, prof, steps[:i + 1], case["cod"], opts]) for i in range(len(steps))]
+    states = [core.jhash([kind, multi, prof, steps[:i + 1], case["cod"], opts]) for i in range(len(steps))]
     if first_fail is not None and not case["cod"]:
         if raised is None:
             vs.append(viol("divergence_not_raised", "%s: step %s cannot be solved but the time series did not raise" % (where, steps[first_fail]), **tag))
-        elif not isinstance(raised, PipeflowNotConverged):
+        elif not isinstance(raised, (PipeflowNotConverged, NetCalculationNotConverged) if multi else PipeflowNotConverged):
             vs.append(viol("wrong_exception", "%s: raised %s: %s" % (where, type(raised).__name__, str(raised)[:100]), exc=type(raised).__name__, **tag))
         checked = []  # the OutputWriter only hands out its log after a completed run
     else:
@@ -190,5 +229,25 @@ def run_case(case):
                 vs.append(viol("step_differs_from_standalone", "%s: step %s %s logged %s, stand-alone %s" % (where, t, key, got, want),
                                var=key, after_failure=first_fail is not None and steps.index(t) > first_fail, **tag))
                 break
+    if multi and checked:
+        import pandapower as ppw
+        global HHV_LGAS
+        if HHV_LGAS is None:
+            import os
+            for line in open(os.path.join(os.path.dirname(pp.__file__), "properties", "lgas", "higher_heating_value.txt")):
+                line = line.split("#")[0].strip()
+                if line:
+                    HHV_LGAS = float(line)
+        for t in checked:
+            ok, ref = refs[t]
+            if not ok:
+                continue
+            key = "res_sgen.p_mw"
+            want = ref.sink.mdot_kg_per_s.values[0] * HHV_LGAS * 3600 / 1e3 * 0.6
+            got = ow_p.output[key].loc[t].values.astype(float) if key in ow_p.output and t in ow_p.output[key].index else np.array([np.nan])
+            if not (got.shape == (1,) and abs(got[0] - want) <= 1e-9 * max(1.0, abs(want))):
+                vs.append(viol("step_differs_from_standalone", "%s: step %s power member %s logged %s, stand-alone conversion of that step's gas demand %r" % (
+                    where, t, key, got, want), var="power." + key, after_failure=first_fail is not None and steps.index(t) > first_fail, **tag))
+                break
     return {"status": "ok", "violations": vs, "states": states, "transitions": len(steps), "traces": 1,
-            "nontrivial": len(checked) > 0, "sig": core.jhash([kind, prof, steps, case["cod"], opts])}
+            "nontrivial": len(checked) > 0, "sig": core.jhash([kind, multi, prof, steps, case["cod"], opts])}
